@@ -108,6 +108,14 @@ def concl (H : FHash → Hdr → Hdr) (r : Round) (appended : List Hdr) (banned 
 
 end Round
 
+/-- the round as the property sees it -/
+def roundOf (s : St) (net : Net) (truth : Nat → FHash) : Round :=
+  { peers := net.peers.filter (live s), resps := net.resps, served := net.served, verify := net.verify,
+    getBlock := net.getBlock, tip := (s.fstore.getLast?).getD 0, start := s.fstore.length,
+    n := batchLen s, truth := truth }
+
+def newBans (s s' : St) : List Peer := (s'.bans.drop s.bans.length).map (·.1)
+
 /-! ### oracle on consecutive dumps -/
 
 /-- (a) the filter store is not ahead of the block store and its tip is its last entry -/
